@@ -48,8 +48,8 @@ for key, what in (
     findings.append(dict(property='C05', rule='C05.extra' if key.endswith('results') else 'C05.rows', key=key, status='known',
                          what=XR + ' ' + what, why_not_fixed='needs a redesign of the label-to-index reconstruction in XarrayStream.run (half-open interval, open bounds); not a small patch.'))
 
-for key in ('collect_results_list:raises-ValueError:collected[cr.hash_key].zinp[r.subset_indexes] = r.zinp',
-            'collect_results_list:raises-IndexError:collected[cr.hash_key].zinp[r.subset_indexes] = r.zinp'):
+for key in ('collect_results_list:raises-ValueError:scatter-of-an-empty-axis-array:table=time-only',
+            'collect_results_list:raises-IndexError:scatter-into-an-empty-axis-array:table=time-only'):
     findings.append(dict(
         property='C06', rule='C06.collect', key=key, status='known',
         what='collect_results_list scatters the depth / position arrays of every ContextResult unguarded; when the stream has no such axis the '
